@@ -244,12 +244,17 @@ class C16(Sim):
         "failed_load_on_previously_activated_rule", "antecedent_good_consequent_bad", "reload_with_one_bad_rule_among_good",
         "torn_inside_token", "torn_inside_rule", "torn_inside_term_line", "torn_after_engine_line", "corrupted_document_accepted",
         "import_failure_in_second_rule_block", "parse_phase_rejection_atomic", "restored_engine_equals_fresh_twin",
-        "listed_error_in_stored_rule",
+        "listed_error_in_stored_rule", "shipped_example_engine",
     ]
+
+    def prepare(self) -> None:
+        S.load_example_specs()
 
     # ---------------------------------------------------------------- generation
     def cases(self, rng, run: int, tier: str) -> Iterator[dict]:
         sp = S.gen_spec(rng, activations=["General"], fn_reads_output=False, cascade=False, disabled=0.04, mixed_types=0.0)
+        if rng.random() < 0.12:
+            sp = S.example_spec(rng, allow_fn_reads_output=True, randomise_cascade=False) or sp
         n_blocks = len(sp["blocks"])
         ops: list[dict] = [{"op": "process", "row": S.draw_row(rng, sp, 0.1)}]
         for _ in range(rng.randint(3, 12 if tier == "quick" else 20)):
@@ -312,6 +317,8 @@ class C16(Sim):
             emit(f"BUILD-FAILED {type(ex).__name__}")
             out.digest, out.log = dig.hex(), log
             return out
+        if sp.get("flags", {}).get("example"):
+            st.hit("probes.shipped_example_engine")
         store = TornStore()
         # harness view of every rule: original text, text currently in force, whether it should be loaded
         cur_text = {(bi, ri): S.rule_text(r) for bi, b in enumerate(sp["blocks"]) for ri, r in enumerate(b["rules"])}
